@@ -4,6 +4,7 @@ mod engine;
 mod lincode;
 mod model;
 mod props;
+mod replay;
 mod schemes;
 mod session;
 mod types;
